@@ -101,6 +101,15 @@ def arg_shapes(cls):
     shapes.append(("empty", ()))
     shapes.append(("imm", ("msg", 5, (1.5, None), b"b")))
     shapes.append(("unser", ("m", [1, 2], {"k": 1}, Unser())))
+    # values of serializable *type* that still cannot be encoded (text with a lone surrogate, as os.listdir produces for
+    # undecodable file names), at top level and inside containers
+    for nm, a in (("unenc-top", ("caf\udce9.txt", 3)), ("unenc-nested", ("x", ("cache", "caf\udce9.txt"), 1)),
+                  ("unenc-fset", ("x", frozenset(["caf\udce9.txt"])))):
+        try:
+            cls(*a)
+        except Exception:
+            continue            # this class's constructor has a signature of its own
+        shapes.append((nm, a))
     if issubclass(cls, OSError):
         shapes += [("errno2", (2, "No such file")), ("errno3", (2, "No such file", "name.txt")),
                    ("errno5", (13, "denied", "a.txt", None, "b.txt"))]
@@ -117,9 +126,20 @@ def arg_shapes(cls):
     return shapes
 
 
-def expect_args(args):
+def _travels(a):
+    """the value is of serializable type and the published encoding can represent it"""
     import rpyc.core.brine as brine
-    return tuple(a if brine.dumpable(a) else repr(a) for a in args)
+    if not brine.dumpable(a):
+        return False
+    try:
+        RC.enc(a)
+    except Exception:
+        return False
+    return True
+
+
+def expect_args(args):
+    return tuple(a if _travels(a) else repr(a) for a in args)
 
 
 def public_data(exc):
@@ -134,7 +154,7 @@ def public_data(exc):
             continue
         if callable(v):
             continue
-        out[name] = v if brine.dumpable(v) else repr(v)
+        out[name] = v if _travels(v) else repr(v)
     return out
 
 
